@@ -1,5 +1,5 @@
 """C04 — causality and sign (DESIGN 4.C04)."""
-from vlib.core import Check
+from vlib.core import Check, guarded
 from pyvc.driver import verify_contracts, ENGINE_ASSUMPTIONS
 from pyvc import arrays, extio
 from contracts import common, single_layer, assembly
@@ -26,7 +26,7 @@ def run(tier, seed):
     smt.close_pool()
     try:
         from bounded import relational
-        relational.run(chk, "C04", tier, seed)
+        guarded(chk, 'bounded part relational.run', relational.run, chk, "C04", tier, seed)
     except ImportError:
         chk.notes.append("bounded sign part (relational harness) not built yet")
     return chk.finish()
